@@ -1312,6 +1312,8 @@ class Engine:
                 v = VOpaque(tag=f"global:{name}")
             if isinstance(v, (VInt, VStr, VSet, VClass, VFunc, VBool, VNone)) or (isinstance(v, VSeq) and hasattr(v, "items")) or isinstance(v, VTuple):
                 self.vf.global_cache[key] = v
+            elif isinstance(v, VRef) and isinstance(self.heap.get(v.addr), VDict):
+                pass     # module-level table: re-evaluated per path (heap is per path); treated as never mutated
             return v
         if name in mod.imports:
             return self.resolve_dotted(mod.imports[name], node)
